@@ -304,3 +304,35 @@ func spiffeRotations(b *tv.Batch, rotations int) (tr, writes int, ok bool) {
 	mu.Unlock()
 	return tr, rotations + 1, true
 }
+
+// runPlanBadName: Write number badAt gets, next to its regular files, a name that cannot be created ("nodir/x": the
+// directory does not exist). That Write must fail - announced to the contract as an environment/input fault - and the
+// target must keep showing the previous complete set; it must never show the set with the file missing.
+func runPlanBadName(b *tv.Batch, p plan, badAt int) int {
+	root, err := os.MkdirTemp("", "vc18-")
+	if err != nil {
+		panic(err)
+	}
+	defer os.RemoveAll(root)
+	r := &runner{b: b, root: root, target: filepath.Join(root, "tgt"), verDirs: map[string]int{}, crashAt: map[int]bool{}}
+	dir.VerifHook = r.hook
+	defer func() { dir.VerifHook = nil }()
+	tr := b.Start(tv.M{"plan": p, "bad_name_at": badAt})
+	log := logger.NewLogger("verif-c18")
+	log.SetOutputLevel(logger.FatalLevel)
+	d := dir.New(dir.Options{Log: log, Target: r.target})
+	for i, set := range p.Sets {
+		w := i + 1
+		r.curW = w
+		names := append([]string{}, set...)
+		if w == badAt {
+			names = append(names, "nodir/x")
+			b.Ev("fault", nil)
+		}
+		b.Ev("begin", tv.M{"w": w, "files": names})
+		_, werr := r.write(d, w, names)
+		b.Ev("obs", r.observe())
+		b.Ev("ret", tv.M{"w": w, "err": werr != nil, "versions": r.versions(), "errtext": fmt.Sprint(werr)})
+	}
+	return tr
+}
